@@ -422,6 +422,11 @@ Token* RegxParser::parseFactor() {
                        && (ch = fString[fOffset++]) >= chDigit_0
                        && ch <= chDigit_9) {
 
+                    // report the overflow before it happens (signed overflow
+                    // is undefined, the test for a negative value below cannot
+                    // be relied upon)
+                    if (min > 214748363)
+                        ThrowXMLwithMemMgr1(ParseException, XMLExcepts::Parser_Quantifier5, fString, fMemoryManager);
                     min = min*10 + ch - chDigit_0;
                 }
 
@@ -446,6 +451,8 @@ Token* RegxParser::parseFactor() {
                            && (ch = fString[fOffset++]) >= chDigit_0
                            && ch <= chDigit_9) {
 
+                        if (max > 214748363)
+                            ThrowXMLwithMemMgr1(ParseException, XMLExcepts::Parser_Quantifier5, fString, fMemoryManager);
                         max = max*10 + ch - chDigit_0;
                     }
 
